@@ -349,7 +349,8 @@ class CaseBuilder:
         dfc = rng.choice(['2', '3', '5/2', vname if all(not x.is_zero() for x in pts) else '2'])
         has_rep_conj = any(s_[0] in ('cpair', 'sympair') and k >= 2 for s_, k in pspecs)
         tags = dict(opts)
-        tags.update({'dom': dom, 'repeated_conjugate_poles': has_rep_conj, 'degB': None})
+        tags.update({'dom': dom, 'repeated_conjugate_poles': has_rep_conj,
+                     'zeros_known': all(s_[0] != 'poly' for s_, k in zspecs), 'poles_known': True})
         return {'id': idx, 'expr': txt, 'var': vname, 'env': {k: v.ser() for k, v in env.items()},
                 'points': [p.ser() for p in pts], 'rpoints': [p.ser() for p in rpts],
                 'mfactor': mf or (vname + ' + 11'), 'dfactor': dfc,
@@ -599,7 +600,10 @@ def theorem_files(tr):
     meta = {}
 
     def mk(key, att, stmts):
-        txt = THM_HEAD % (tr.sha, key, att, att, key)
+        if att is None:
+            txt = THM_HEAD.split('Lemma attach_')[0] % tr.sha
+        else:
+            txt = THM_HEAD % (tr.sha, key, att, att, key)
         names = []
         for name, stmt, proof in stmts:
             txt += 'Theorem %s :\n  %s.\nProof. %s Qed.\n' % (name, stmt, proof)
@@ -680,8 +684,8 @@ def theorem_files(tr):
         if 'delay' in t:
             slot_stmts.append(('delay_slot_%s' % key, 'forall x d : K, dslot_%s K x d = d' % key, 'intros. unfold dslot_%s. ring.' % key))
         slot_stmts.append(('undef_slot_%s' % key, 'uslot_%s = true' % key, 'reflexivity.'))
-    if slot_stmts and 'partfrac' in f:
-        mk('slots', 'att_partfrac', slot_stmts)
+    if slot_stmts:
+        mk('slots', None, slot_stmts)
     if 'decomp' in res:
         txt = THM_HEAD.split('Lemma attach_')[0] % tr.sha
         txt += ('Hypothesis Eadd : forall a b, E (a + b) = E a * E b.\n'
@@ -763,7 +767,12 @@ def case_defs(c, r, pre):
                         pre, pre, pre, pre, B, A, d, pre, k, pre, k, qi(M[key]['vals'][k]))))
     for key, poly in (('poles', A), ('zeros', B)):
         if ok(key):
-            checks.append((key, 0, 'chk_roots %s %s' % (poly, rlist(M[key]['roots']))))
+            # all roots of the generated polynomial are Gaussian rationals by construction: symbolic root
+            # finding succeeds, so the report must account for the full degree
+            if c['tags'].get(key + '_known'):
+                checks.append((key, 0, 'roots_full %s %s && roots_cert %s %s' % (poly, rlist(M[key]['roots']), poly, rlist(M[key]['roots']))))
+            else:
+                checks.append((key, 0, 'chk_roots %s %s' % (poly, rlist(M[key]['roots']))))
     for qk, pk, ck in (('as_QRPO', 'partfrac', 'partfrac_cc'), ('as_QRPO_ec', 'partfrac_ec', None)):
         if ok(qk):
             q = M[qk]
